@@ -4,6 +4,7 @@ package main
 import (
 	"bytes"
 	"fmt"
+	"github.com/blugelabs/bluge/verifmc"
 	"hash/crc32"
 	"io"
 	"log"
@@ -484,6 +485,35 @@ func rejMemEval(idx int64, param string) *explore.Result {
 			return fmt.Errorf("fell back to epoch %d instead of the intact epoch 4", e)
 		}
 		_ = snap.Close()
+		// (c) so does a writer opened on that directory (OpenWriter walks the snapshots itself)
+		d3 := &memDir{snaps: map[uint64][]byte{5: dmg, 4: older}, segVer: map[uint64]uint32{1: 1}}
+		var werr error
+		sch := verifmc.Run(verifmc.Options{MaxSteps: 1 << 20}, func() {
+			cfg := memConfig(d3)
+			cfg.AsyncError = func(error) {}
+			w, err := index.OpenWriter(cfg)
+			if err != nil {
+				werr = fmt.Errorf("OpenWriter did not fall back to the older intact snapshot: %v", err)
+				verifmc.Exit()
+				return
+			}
+			r, err := w.Reader()
+			if err != nil {
+				werr = fmt.Errorf("reader of the writer opened next to a damaged snapshot: %v", err)
+			} else {
+				if !equalInfos(r.VerifSegInfos(), normalise(bases[1].spec)) {
+					werr = fmt.Errorf("a writer opened next to the damaged snapshot shows %s instead of the intact epoch 4", describe(r.VerifSegInfos()))
+				}
+				_ = r.Close()
+			}
+			_ = w.Close()
+		})
+		if werr != nil {
+			return werr
+		}
+		if sch.Failure != "" {
+			return fmt.Errorf("OpenWriter next to a damaged snapshot: %s", sch.Failure)
+		}
 		return nil
 	})
 	if err != nil {
@@ -679,7 +709,7 @@ func main() {
 	if v := c.IsReplay(); v != nil {
 		c.RunReplay(v)
 	}
-	c.Rule = "round trip: every snapshot with 0-2 (thorough: 0-3) segments over ids {0,1,127,128,2^32-1,2^64-1} x versions {1,2} x deleted sets {none, empty, {0}, {0..9}, every 3rd of 0..8999 (6 KB, crosses the 4096-byte buffer), a run container, a bitmap container}; rejection: for 6 base encodings (6 bytes to 6 KB) every truncation length, every single-bit flip (quick: of the first/middle/last 200 bytes of the large base), every tail over {00,ff,01}^1..4, and every whole file over {00,01,03,7f,80,ff}^<=5; each through OpenReader on an in-memory directory and on the real FileSystemDirectory with the mmap and the non-mmap loader; every case is a distinct input"
+	c.Rule = "round trip: every snapshot with 0-2 (thorough: 0-3) segments over ids {0,1,127,128,2^32-1,2^64-1} x versions {1,2} x deleted sets {none, empty, {0}, {0..9}, every 3rd of 0..8999 (6 KB, crosses the 4096-byte buffer), a run container, a bitmap container}; rejection: for 6 base encodings (6 bytes to 6 KB) every truncation length, every single-bit flip (quick: of the first/middle/last 200 bytes of the large base), every tail over {00,ff,01}^1..4, and every whole file over {00,01,03,7f,80,ff}^<=5; each through OpenReader on an in-memory directory (there also through OpenWriter next to an older intact snapshot) and on the real FileSystemDirectory with the mmap and the non-mmap loader; every case is a distinct input"
 	c.Explanation = "bounded-exhaustive enumeration of encodings and damages against the real encoder/decoder/loader; oracle: equality (round trip), error without panic/fault and with bounded allocation (rejection), fallback to the older intact snapshot"
 	c.Assumptions = []string{
 		"the coverage-guided fuzzing clause of the property is replaced by exhaustive enumeration of the stated damage classes; long random garbage is outside the bound",
